@@ -2,6 +2,7 @@
 End to end: discover_df (rex off/on) -> {dict, .tdda file} -> verify_df / detect_df x repair on/off
 on generated frames; plus the model's closure on the same abstract columns (Constraints/Model.v)."""
 import contextlib
+import datetime
 import io
 import os
 import shutil
@@ -24,6 +25,20 @@ def extra_frames(rng):
     out.append(('tz', pd.DataFrame({'t': pd.to_datetime(['2020-01-02 03:04:05', '2021-06-07 08:09:10']).tz_localize('UTC')})))
     out.append(('strdtype', pd.DataFrame({'s': pd.Series(['a', 'bb', None], dtype='str')})))
     out.append(('stringext', pd.DataFrame({'s': pd.Series(['a', 'bb', None], dtype='string')})))
+    # long free text (more than 99 runs of word / space / punctuation, so rexpy falls back to '.') with line breaks in it
+    t1 = ' '.join('word%d, and-more;' % i for i in range(40)) + '\nsecond line: ' + 'x y ' * 20
+    t2 = ' '.join('item %d.' % i for i in range(60)) + '\r\nanother\x85line ' + 'a-b ' * 25
+    out.append(('longtext', pd.DataFrame({'notes': pd.Series([t1, t2, t1 + '!', None], dtype=object),
+                                          'n': [1, 2, 3, 4]})))
+    # two batches stacked without ignore_index: row labels repeat
+    b1 = pd.DataFrame({'flag': pd.Series([True, None, False], dtype=object),
+                       'day': pd.Series([datetime.date(2020, 1, 2), datetime.date(2021, 3, 4), None], dtype=object),
+                       'k': [1, 2, 3]})
+    b2 = pd.DataFrame({'flag': pd.Series([None, True, True], dtype=object),
+                       'day': pd.Series([datetime.date(2019, 5, 6), None, datetime.date(2022, 7, 8)], dtype=object),
+                       'k': [4, 5, 6]})
+    out.append(('stacked', pd.concat([b1, b2])))
+    out.append(('stacked-nullfirst', pd.concat([b2, b1])))
     return out
 
 
